@@ -131,6 +131,59 @@ def make_transport_class():
     return MockTransport
 
 
+async def make_port_transport(rig, protocol, **kw):
+    """The library's real `PortTransport` (built by its own factory on a pty): every decorator of the real write
+    and read paths is in play (duty-cycle limiter, sync-cycle avoidance and tracking, the inter-write gap).  What
+    it writes to the serial port is captured; the far end (echo, responder) is the same as the mock's."""
+    import os
+
+    import ramses_tx.transport as T
+
+    loop = rig.loop
+    master, slave = os.openpty()
+    rig._pty = (master, slave)
+    # module-level state of the limiter / sync tracker: a fresh process for every episode
+    T._global_sync_cycles.clear()
+    wf = T.PortTransport.write_frame
+    cells = dict(zip(wf.__code__.co_freevars, wf.__closure__ or ()))
+    if "bits_in_bucket" in cells:
+        cells["bits_in_bucket"].cell_contents = cells["BUCKET_CAPACITY"].cell_contents
+        cells["last_time_bit_added"].cell_contents = loop.time()
+    kw = {**kw, "loop": loop}
+    tr = await T.transport_factory(protocol, port_name=os.ttyname(slave), port_config={}, **kw)
+    tr.written = []
+    tr.gwy_id = rig.gwy_id
+    tr.responder = rig.responder
+    tr.echo_delay = 0.02
+    tr.lose_echo = lambda frame: False
+    tr.ether = None
+
+    def inject(frame: str, rssi: str = "045") -> None:
+        if tr.is_closing():
+            return
+        tr._frame_read(vnow(loop).isoformat(timespec="microseconds"), f"{rssi} {frame}")
+
+    def inject_at(dtm, frame: str, rssi: str = "045") -> None:
+        tr._frame_read(dtm.isoformat(timespec="microseconds"), f"{rssi} {frame}")
+
+    def _write(data: bytes) -> None:
+        frame = data.decode("ascii").rstrip("\r\n")
+        tr.written.append((loop.time(), frame))
+        if frame[:1] == "!":
+            return
+        on_air = frame.replace(HGI_ID, tr.gwy_id, 1) if frame[7:16] == HGI_ID else frame
+        if not tr.lose_echo(on_air):
+            loop.call_later(tr.echo_delay, inject, on_air, "000")
+        if tr.responder is not None:
+            for delay, reply in tr.responder(on_air) or ():
+                loop.call_later(tr.echo_delay + delay, inject, reply)
+
+    tr._write = _write
+    tr.inject = inject
+    tr.inject_at = inject_at
+    return tr
+
+
 class Ether:
     """An in-memory RF medium: every transmitted frame is heard by every attached gateway (the sender hears its
     echo).  `policy(frame, src_id, dst_id) -> list of extra delays`: [] = lost for that listener, two entries = heard twice."""
@@ -165,11 +218,13 @@ class Rig:
     """One gateway on one virtual loop."""
 
     def __init__(self, loop, *, config=None, schema=None, known_list=None, block_list=None, responder=None,
-                 gwy_id=GWY_ID, disable_discovery=True, ether: Ether | None = None) -> None:
+                 gwy_id=GWY_ID, disable_discovery=True, ether: Ether | None = None, port: bool = False) -> None:
         self.loop = loop
         self.responder = responder
         self.gwy_id = gwy_id
         self.ether = ether
+        self.port = port          # the real PortTransport on a pty instead of the mock
+        self._pty = None
         cfg = {"disable_discovery": disable_discovery, "enforce_known_list": False, **(config or {})}
         self.kwargs = dict(config=cfg, **(schema or {}))
         if known_list:
@@ -192,6 +247,9 @@ class Rig:
                 import ramses_tx.transport as T
 
                 return await T.transport_factory(protocol, packet_log=packet_log, packet_dict=packet_dict, **kw)
+            if rig.port:
+                rig.transport = await make_port_transport(rig, protocol, **kw)
+                return rig.transport
             rig.transport = MT(protocol, rig.loop, gwy_id=rig.gwy_id, responder=rig.responder)
             if rig.ether is not None:
                 rig.transport.ether = rig.ether
@@ -221,6 +279,15 @@ class Rig:
             await self.gwy.stop()
         except Exception:  # noqa: BLE001
             pass
+        if self._pty is not None:
+            import os
+
+            for fd in self._pty:
+                try:
+                    os.close(fd)
+                except OSError:
+                    pass
+            self._pty = None
 
 
 # ---------------------------------------------------------------------------------------------
